@@ -46,6 +46,10 @@ def _runner_main(jobs_path: str, out_path: str) -> None:
 
     jobs = json.load(open(jobs_path))
     U.PARENT_MARK = f'parent-{os.getpid()}'
+    # This process plays the user's interactive Python program.  If the check was started with SIGINT ignored (a
+    # background job of a non-interactive shell inherits SIG_IGN, and Python then installs no handler) a Ctrl-C would never
+    # become a KeyboardInterrupt: restore the interpreter's default behaviour.
+    signal.signal(signal.SIGINT, signal.default_int_handler)
 
     unraisable: list = []
 
